@@ -711,6 +711,20 @@ Proof.
   split; [vm_compute; reflexivity|]. vm_compute. eexists. repeat split; reflexivity.
 Qed.
 
+
+(* Resume of a paused time-based entry recomputes the deadline from the actor's latest activity
+   (activity seen while paused counts), never from the deadline the entry was parked with *)
+Lemma resume_refreshes c m id e now :
+  reach c m -> aget id (m_entries m) = Some e -> e_paused e = true -> is_time (e_strat e) = true ->
+  exists e', aget id (m_entries (fst (step m (OResume id now)))) = Some e' /\
+             e_paused e' = false /\ e_inheap e' = true /\
+             e_deadline e' = (if p_latest (get_part m id) =? 0 then now else p_latest (get_part m id)) + e_timeout e.
+Proof.
+  intros _ Hg Hp Ht. cbn [step]. rewrite Hg, Hp. cbn [negb].
+  replace (is_time (e_strat (with_paused false e))) with true by (symmetry; exact Ht). cbn [fst set_entry m_entries].
+  rewrite aget_aset_same. eexists. split; [reflexivity|]. cbn. repeat split; reflexivity.
+Qed.
+
 (* ------------------------------------------------------------------ tryPassivation *)
 
 Lemma try_passivation_guards f :
